@@ -528,6 +528,11 @@ func CheckLinearizable(res *ChurnResult, timeout time.Duration) (findings []Find
 					}
 				}
 			}
+			if o, t, ok := anyClientWriteOnNonOwner(res, pk[:strings.Index(pk, "/")]); ok && !strings.Contains(key, ":list-") {
+				key += ":written-to-non-owner"
+				_ = o
+				_ = t
+			}
 			sort.Slice(p.raw, func(i, j int) bool { return p.raw[i].Call < p.raw[j].Call })
 			findings = append(findings, Finding{Key: key,
 				What:    fmt.Sprintf("history of %s (%d operations after removing retryable failures) is not linearizable", pk, len(p.ops)),
@@ -640,8 +645,19 @@ func ackedWriteWentToNonOwner(res *ChurnResult, read OpRec, m *keyModel) (owner 
 	}
 	switch read.Kind {
 	case OpGet:
-		if m.value != "" && read.Value != m.value {
-			return check("Put", m.value)
+		if read.Value != m.value {
+			// a value that resurfaced (or is stale) was written on a non-owner's copy and came back
+			// with a later hand-over; a missing value was acknowledged by a non-owner; a delete that
+			// did not stick was executed on a non-owner's copy
+			if read.Value != "" {
+				if o, t, ok := check("Put", read.Value); ok {
+					return o, t, true
+				}
+			}
+			if m.value != "" {
+				return check("Put", m.value)
+			}
+			return check("Delete", "")
 		}
 	case OpList:
 		have := map[string]bool{}
@@ -655,13 +671,60 @@ func ackedWriteWentToNonOwner(res *ChurnResult, read OpRec, m *keyModel) (owner 
 				}
 			}
 		}
+		for c := range have {
+			if !m.children[c] {
+				if o, t, ok := check("Remove", c); ok {
+					return o, t, true
+				}
+				if o, t, ok := check("Append", c); ok {
+					return o, t, true
+				}
+			}
+		}
 	case OpContains:
 		if m.children[read.Arg] && !read.Bool {
+			return check("Append", read.Arg)
+		}
+		if !m.children[read.Arg] && read.Bool {
+			if o, t, ok := check("Remove", read.Arg); ok {
+				return o, t, true
+			}
 			return check("Append", read.Arg)
 		}
 	case OpAppend:
 		if m.children[read.Arg] && !read.Conflict {
 			return check("Append", read.Arg)
+		}
+	}
+	return 0, 0, false
+}
+
+// anyClientWriteOnNonOwner: some successful client write of the key was executed by the store
+// of a node while another node that had definitely joined and was not leaving owned the key.
+func anyClientWriteOnNonOwner(res *ChurnResult, key string) (owner uint64, at int64, ok bool) {
+	if res.StoreEventsFor == nil {
+		return 0, 0, false
+	}
+	hash := chord.Hash([]byte(key))
+	for _, e := range res.StoreEventsFor(key) {
+		switch e.Op {
+		case "Put", "Delete", "Append", "Remove":
+		default:
+			continue
+		}
+		if !strings.HasPrefix(e.Res, "ok") {
+			continue
+		}
+		ids := []uint64{e.Node}
+		for id, sp := range res.Timeline {
+			if id == e.Node || sp.Joined == 0 || sp.Joined > e.T || (sp.LeaveStart != 0 && sp.LeaveStart <= e.T) {
+				continue
+			}
+			ids = append(ids, id)
+		}
+		sort.Slice(ids, func(i, j int) bool { return ids[i] < ids[j] })
+		if o := OwnerOf(ids, hash); o != e.Node {
+			return o, e.T, true
 		}
 	}
 	return 0, 0, false
